@@ -285,6 +285,9 @@ def build_api_tx(rng, network='bitcoin', kinds=None, nin=None, nout=None, max_n=
             k = rk()
             t.add_input(txid, n, keys=[pub(k)], script_type='p2sh_p2wpkh', sequence=seq, value=val, witness_type='p2sh-segwit',
                         **with_spk(b'\xa9\x14' + _h160(b'\x00\x14' + _h160(k.public_byte)) + b'\x87'))
+            if rng.random() < 0.3:
+                # the caller also hands over the redeem script of the nested input (0014<key hash>), as it stands in the scriptSig
+                t.inputs[-1].redeemscript = b'\x00\x14' + _h160(k.public_byte)
             sc = b'\x76\xa9\x14' + _h160(k.public_byte) + b'\x88\xac'
             meta.append(dict(kind=kind, wt='segwit', sc=sc, val=val, keys=[k], m=1,
                              spk=b'\xa9\x14' + _h160(b'\x00\x14' + _h160(k.public_byte)) + b'\x87'))
